@@ -85,6 +85,13 @@ def ops(tier):
     for pub in (ff16, "02" + "00" * 15, ff16 + "f0" + "ff" * 15 + "11" + "00" * 15, ff16 + "fb" + "fe" * 15 + "01" * 16, "fd" + "ff" * 15,
                 "e33594d7505e43b900000000000000003394d7505e4379cd010000000000000000000000000000000000000000000000"):
         out.append(("poly1305", pub, special))
+    # the same through three input calls: with r = 1 the accumulator is the plain block sum, so three zero blocks followed by a block
+    # whose two low 26-bit limbs are saturated leave a pending limb carry exactly at the second call boundary for the r = 1 keys and
+    # not for the others; likewise a first block with saturated low limbs at the first boundary
+    m26 = (1 << 26) - 1
+    blk = ((m26 - 2) | (m26 << 26) | (m26 << 52)).to_bytes(16, "little")
+    for pub in (bytes(48) + blk + pat(5, 0, 21), blk + bytes(48) + pat(5, 0, 5), pat(5, 0, 67).hex() and pat(5, 0, 67)):
+        out.append(("poly1305_split", pub.hex(), special))
     out.append(("hmac_sha256", msg67, secrets(32, tier, 16, (0, 127, 128, 255))))
     out.append(("chacha20", data130, secrets(32, tier, 16, (0, 127, 128, 255))))
     out.append(("salsa20", data130, secrets(32, tier, 16, (0, 127, 128, 255))))
